@@ -6,6 +6,7 @@ package c10
 import (
 	"fmt"
 	"testing"
+	"time"
 
 	"github.com/6tail/lunar-go/calendar"
 	"pgregory.net/rapid"
@@ -16,9 +17,13 @@ import (
 
 func TestMain(m *testing.M) { ev.Main(m, "C10") }
 
-// last civil year whose moments are generated: the library searches up to time.Now().Year(); staying
-// two years behind the build date of this harness keeps the answer independent of the clock.
-const lastYear = 2024
+// The statement's domain ends with "the current year", which the library reads from the wall clock
+// (time.Now().Local().Year()). The check reads the same clock ONCE, for the year only; this is the single place
+// where a check's domain depends on the date of the run (forced by the statement). Should the year roll over
+// during a run, the affected cases are skipped, never reported.
+var lastYear = time.Now().Local().Year()
+
+func clockMoved() bool { return time.Now().Local().Year() != lastYear }
 
 type bzCase struct {
 	T    ref.DT
@@ -77,7 +82,7 @@ func jieNear(t ref.DT) (inSlot bool, beforeInSlot bool) {
 
 var reverse = ev.Register(&ev.P[bzCase]{
 	Name: "reverse_lookup_roundtrip",
-	Rule: "moments from Xiaohan of the base year to the end of 2024 (every Jie 1900..2024 x offsets in minutes {-125,-61,-59,-31,-1,0,+1,+31,+61,+119} swept; Lichun day, both sides of midnight, uniform moments generated), sect in {1,2}, base year in {1900 default, 1600, 1984, 2000}; oracle: forward pillars of the moment -> ListSolarFromBaZiBySectAndBaseYear must contain a moment in the same two-hour slot (completeness), every returned moment converted forward has exactly the requested pillars under the requested sect and year >= base (soundness), the list is strictly increasing by R-civil instant, and the default-argument wrappers equal their explicit forms; non-trivial: the slot contains a Jie instant, is the rat slot, or the day is a Jie day",
+	Rule: "moments from Xiaohan of the base year to the end of the current year (every Jie 1900..current year x offsets in minutes {-125,-61,-59,-31,-1,0,+1,+31,+61,+119} swept; Lichun day, both sides of midnight, uniform moments generated), sect in {1,2}, base year in {1900 default, 1600, 1984, 2000}; oracle: forward pillars of the moment -> ListSolarFromBaZiBySectAndBaseYear must contain a moment in the same two-hour slot (completeness), every returned moment converted forward has exactly the requested pillars under the requested sect and year >= base (soundness), the list is strictly increasing by R-civil instant, and the default-argument wrappers equal their explicit forms; non-trivial: the slot contains a Jie instant, is the rat slot, or the day is a Jie day",
 	Check: func(c bzCase) error {
 		t := c.T
 		p := pillars(t, c.Sect)
@@ -92,7 +97,7 @@ var reverse = ev.Register(&ev.P[bzCase]{
 		}
 		found := false
 		for i, g := range got {
-			if g.Y > lastYear+1 { // the tail depends on the wall clock; not part of the generated domain
+			if g.Y > lastYear+1 { // beyond the domain (only the early-rat representative of next Jan 1 can be here)
 				continue
 			}
 			if q := pillars(g, c.Sect); q != p {
@@ -109,6 +114,9 @@ var reverse = ev.Register(&ev.P[bzCase]{
 			}
 		}
 		if !found {
+			if clockMoved() {
+				return nil
+			}
 			return fmt.Errorf("%v sect %d base %d: pillars %v; the list %v contains no moment in the original's two-hour slot (incomplete)", t, c.Sect, c.Base, p, got)
 		}
 		if c.Base == 1900 {
@@ -194,7 +202,18 @@ var unsat = ev.Register(&ev.P[badCase]{
 
 func TestC10(t *testing.T) {
 	ev.Assume("forward pillar accessors define 'has those pillars' (their correctness is C05's subject)")
-	ev.Assume("moments are generated up to the end of 2024 so that the result does not depend on time.Now() read by the library")
+	ev.Assume("the current year (end of the statement's domain) is read from the wall clock once, as the library does")
+	// the last days of the current year, every two-hour slot, both sects
+	if ev.Shard == 0 {
+		for _, d := range []int{29, 30, 31} {
+			for h := 0; h < 24; h++ {
+				for _, sect := range []int{1, 2} {
+					reverse.Eval(bzCase{ref.DT{Y: lastYear, M: 12, D: d, H: h, Mi: 30}, sect, 1900})
+				}
+			}
+		}
+		reverse.Eval(bzCase{ref.DT{Y: lastYear, M: 12, D: 31, H: 23, Mi: 59, S: 59}, 2, 2000})
+	}
 	bases := []int{1900, 1600, 1984, 2000}
 	offs := []int64{-125, -61, -59, -31, -1, 0, 1, 31, 61, 119}
 	step := 1
@@ -219,7 +238,7 @@ func TestC10(t *testing.T) {
 		}
 	}
 	if ev.Thorough() {
-		reverse.Exhaustive("every Jie instant 1900..2024 x 10 minute offsets x both sects (base 1900)")
+		reverse.Exhaustive("every Jie instant 1900..current year x 10 minute offsets x both sects (base 1900)")
 	}
 	reverse.Rapid(ev.Share(ev.Pick(3200, 64000)), func(t *rapid.T) bzCase {
 		base := rapid.SampledFrom(bases).Draw(t, "base")
